@@ -25,6 +25,19 @@ CHECKS = {
         'Blind to defects identical under all schedules; post-error state of '
         'an inspector that raised is outside the statement; streams <= 3 MiB.',
         'DESIGN.md section 4 C01'),
+    'C02': (
+        'construction with known unsafe traits (three-valued oracle), '
+        'exhaustive finite families, Hypothesis trait mixes, CLI differential',
+        'exploration',
+        'All 50 625 MBR tables of the bounded family, the qcow2 version x '
+        'feature-bit x backing-offset grid and the VMDK/LUKS/QED sweeps are '
+        'enumerated completely; trait mixes, truncations, foreign content and '
+        'raising checks are sampled with Hypothesis; the CLI is run in '
+        'process on the same files (subprocess sample). must-reject and '
+        'must-accept come from what the builder put into the image.',
+        'Unsafe = what the statement enumerates, pinned in vcheck.imggen; '
+        'spellings the statement does not mention are counted as unspecified.',
+        'DESIGN.md section 4 C02'),
     'C07': (
         'round trip against layout-built ground truth + prefix enumeration '
         '(Hypothesis + exhaustive sweeps)',
